@@ -303,6 +303,10 @@ def install(ai: AbsInt, ctx, clip_model=True):
         if isinstance(it, VLQ):
             f.pos += 1
             return it.value
+        if isinstance(it, (int, AV, LenV)) and not isinstance(it, bool) and (upper_bound(it) if upper_bound(it) is not None else 999) <= 127 \
+                and not (isinstance(it, int) and it < 0):
+            f.pos += 1          # one byte with the top bit clear is a complete quantity: its own value
+            return it
         f.bad.append(f'a variable length quantity is read where the stream has {it!r}')
         f.pos += 1
         return Opaque('misread vlq')
@@ -474,11 +478,31 @@ def items_equal(a, b):
     return all(item_equal(x, y) for x, y in zip(a, b))
 
 
+def upper_bound(v):
+    """The largest value v can have (under the length bounds of the current path), or None."""
+    if isinstance(v, bool):
+        return int(v)
+    if isinstance(v, int):
+        return v
+    if isinstance(v, AV) and not v.is_top:
+        return v.interval()[1]
+    if isinstance(v, LenV):
+        from .absint import len_interval
+        return len_interval(v)[1]
+    return None
+
+
 def item_equal(x, y):
     if x is y:
         return True
     if isinstance(x, VLQ) and isinstance(y, VLQ):
         return value_equal(x.value, y.value)
+    if isinstance(x, VLQ) != isinstance(y, VLQ):
+        # a quantity below 128 is one byte holding the quantity itself
+        q, plain = (x, y) if isinstance(x, VLQ) else (y, x)
+        ub = upper_bound(q.value)
+        return isinstance(plain, (int, AV, LenV)) and not isinstance(plain, bool) and ub is not None and ub <= 127 \
+            and (upper_bound(plain) or 0) <= 127 and value_equal(q.value, plain)
     if isinstance(x, Field) and isinstance(y, Field):
         return x.code == y.code and x.order == y.order and value_equal(x.value, y.value)
     if isinstance(x, SeqVar) or isinstance(y, SeqVar):
